@@ -26,6 +26,7 @@ RULE = ('fields: shapes (2-14) x (2-18) [some up to 40 x 60], magnitudes '
         'the reference decoder. non-trivial = field is not constant; '
         'distinct = digest of the spec.')
 RULE += (' Also: variables present only at upper levels, grids with NX or NY above 999 (letter-coded grid numbers), a second ARL file with another variable table opened before the first is read; a read that raises is a finding of the case.')
+RULE += (' Forecast files: the labels carry non-zero forecast hours (YYMMDDHH stays the valid time).')
 ASSUMPTIONS = [
     'bound: |unpack(pack(x)) - x| <= 2**(NEXP-7) element-wise (float32 '
     'arithmetic slack of 4 ulp of the largest magnitude)',
